@@ -35,6 +35,8 @@ def gen(rng, tier, quarantine=()):
     recs = []
     for v in supplied:
         kind = rng.choice(["tweak", "overridable"])
+        if "no-overridable-on-declaration" in quarantine:
+            kind = "tweak"  # KF-C16-2
         need_tool |= kind == "tweak"
         recs.append({"op": "mk", "id": f"o{n}", "kind": kind, "sels": [one_sel(fn, v)],
                      "how": ["const", rng.choice([0, 5, 77])], "nojudge": True})
@@ -64,6 +66,14 @@ def gen(rng, tier, quarantine=()):
     if undefined_global and "no-full-instrumentation-with-undefined-global" in quarantine:
         recs = [r for r in recs if r.get("kind") != "tweak"]
         need_tool = False
+    if decl and rng.random() < 0.4:
+        # a total probe gathering the declared variable together with others:
+        # its record is published when the call ends, however it ends
+        n += 1
+        caps = [rng.choice(decl)] + rng.sample(others, rng.randint(1, len(others)))
+        recs.append({"op": "mk", "id": f"t{n}", "kind": "probe", "nojudge": True, "raw": True,
+                     "sels": [{"levels": [{"fn": fn, "caps": [{"var": c, "as": c} for c in caps], "sibs": []}],
+                               "focus": None, "mode": "total"}]})
     if need_tool or (rng.random() < 0.15 and not (
             undefined_global and "no-full-instrumentation-with-undefined-global" in quarantine)):
         ops.append({"op": "tool", "fn": fn, "how": "inplace"})
